@@ -192,6 +192,45 @@ Definition find_row (name : string) : c10_prog :=
   | None => PEv Unknown
   end.
 
+(* ---- the read call sites (second generated table) ---- *)
+(* The wrappers test `options.Consistency.Preference`: the bypass only works when every datastore
+   read of the engines and commands FORWARDS the request's preference in its options.  c10_reads
+   lists every Read / ReadUsersetTuples / ReadStartingWithUser / ReadUserTuple / ReadPage call of
+   internal/check, internal/graph, internal/checkutil, internal/listobjects/pipeline and
+   pkg/server/commands (+ reverseexpand, listusers) with the expression its options carry as
+   Consistency.Preference (NoConsistency: no such field, e.g. storage.ReadOptions{}; UnknownOpts:
+   not understood), and the calls of pipeline.WithStoreConsistency. *)
+
+(* expressions that denote the request's preference at these sites:
+     req.GetConsistency()  (check.Request, graph.ResolveCheckRequest, the API requests)
+     req.Consistency       (reverseexpand.ReverseExpandRequest)
+     r.consistency         (pipeline.ValidatingStore: set by WithStoreConsistency, whose call sites are
+                            rows of the table themselves and must pass req.GetConsistency())
+     consistency           (commands/expand.go: parameter of the Expand helpers, passed down from
+                            req.GetConsistency() in ExpandQuery.Execute) *)
+Definition preference_exprs : list string :=
+  ["req.GetConsistency()"; "req.Consistency"; "r.consistency"; "consistency"]%string.
+
+(* reviewed call sites that legitimately do not forward the preference: (file, function, method).
+   There is none at the pinned commit: every one of the listed reads forwards it.  A site may only
+   be added here with the reason why a stale read cannot reach a HIGHER_CONSISTENCY answer. *)
+Definition reads_allow : list (string * string * string) := [].
+
+Definition allowlisted (r : c10_read) : bool :=
+  existsb (fun a => String.eqb (fst (fst a)) (c10r_file r) && String.eqb (snd (fst a)) (c10r_func r) &&
+                    String.eqb (snd a) (c10r_meth r)) reads_allow.
+
+Definition read_ok (r : c10_read) : bool :=
+  match c10r_fwd r with
+  | Forwards e =>
+      if String.eqb (c10r_meth r) "WithStoreConsistency" then String.eqb e "req.GetConsistency()"
+      else str_mem e preference_exprs
+  | _ => allowlisted r
+  end.
+
+Definition has_read (f m : string) : bool :=
+  existsb (fun r => String.eqb (c10r_func r) f && String.eqb (c10r_meth r) m) c10_reads.
+
 (* ================================================================================================ *)
 (* 2. the layered machine                                                                            *)
 
